@@ -185,6 +185,8 @@ def run(ctx):
         slow = entry.get("cost") == "slow"
         for li, labels in enumerate(LABEL_SETS):
             seeds = list(range(nseeds)) if not slow else ([0, 2] if ctx.quick else [0, 1, 2, 3, 5, 7])
+            if ctx.quick and entry["name"].startswith("boss_ensemble") and li == 2:
+                seeds = seeds + [1]     # two classes, unbalanced: members disagree and votes tie
             for s in seeds:
                 if slow and ctx.quick and li in (3, 5):
                     continue
